@@ -1,5 +1,4 @@
-\* design level: every increasing xi sequence over 1..MaxXi of length 1..MaxN, three wavelength
-\* patterns, three acceptance classes, six inputs, two coefficient pairs
+\* export of the replay lattice (Export = TRUE); the state space is kept minimal
 SPECIFICATION Spec
 CONSTANTS
   MaxXi = 2
